@@ -80,7 +80,8 @@ Definition spliced (sl sq s' : seg) (x : N) : Prop :=
   (forall i, i < x -> eget s' i = eget sl i) /\ (forall i, i < x -> tget s' i = tget sl i) /\
   (forall i, x <= i -> eget s' i = None \/ eget s' i = eget sq i) /\
   (forall i, x <= i -> eget s' i <> None -> tget s' (i - 1) = tget sq (i - 1)) /\
-  (top sl < x \/ exists ex eq, eget sl x = Some ex /\ eget sq x = Some eq /\ e_term ex <> e_term eq).
+  (top sl < x \/ exists ex eq, eget sl x = Some ex /\ eget sq x = Some eq /\ e_term ex <> e_term eq) /\
+  (forall i, sg_base sq < i -> i < x -> exists e1 e2, eget sl i = Some e1 /\ eget sq i = Some e2 /\ e_term e1 = e_term e2).
 
 Inductive NK (n n' : node) : Prop :=
 | nk_same : n_log n' = n_log n -> NK n n'
@@ -135,6 +136,17 @@ Proof.
       - left. rewrite Er, top_log. rewrite Er in Hmiss. pose proof (next_index_wf r Hwfn) as Hn0. unfold next_index in Hn0. lia.
       - right. rewrite Er in Hx0. rewrite <- eget_log in Hx0 by (exists r; reflexivity). rewrite Ei0 in Hx0.
         exists x0, t0. rewrite Er. auto. }
+    assert (F7 : forall i, ae_prev_index q < i -> i < ae_prev_index q + 1 + N.of_nat (length a) ->
+                 exists e1 e2, eget (seg_of_log (n_log n)) i = Some e1 /\ eget (seg_of_req q) i = Some e2 /\ e_term e1 = e_term e2).
+    { intros i Hi1 Hi2.
+      assert (Hka : (N.to_nat (i - ae_prev_index q - 1) < length a)%nat) by lia.
+      destruct (nth_error a (N.to_nat (i - ae_prev_index q - 1))) as [e2|] eqn:E2; [|apply nth_error_None in E2; lia].
+      pose proof (nth_error_In _ _ E2) as Hin2.
+      assert (Eq2 : eget (seg_of_req q) i = Some e2).
+      { unfold eget, seg_of_req. cbn [sg_base sg_es]. destruct (N.ltb_spec (ae_prev_index q) i); [|lia].
+        rewrite Hes, nth_error_app1 by exact Hka. exact E2. }
+      destruct (Hain e2 Hin2) as (x0 & Hx0 & Ht0). rewrite <- eget_log in Hx0 by (exists r; reflexivity).
+      rewrite (eget_index _ _ _ Hwfq Eq2) in Hx0. exists x0, e2. rewrite Er. auto. }
     unfold spliced. cbn [sg_base sg_bterm seg_of_req]. repeat split; auto; lia.
 Qed.
 
